@@ -60,12 +60,28 @@ func main() {
 		for _, c := range os.Args[2] {
 			sd = sd*131 + uint64(c)
 		}
-		st.Gen(hx.NewRng(sd), n, os.Args[4], w.Emit)
+		// generators drive the implementation while they build inputs (walks on a live board, sessions);
+		// a panic inside the implementation at that point must not lose the cases already written:
+		// the writer is closed normally and the panic is recorded in the stats (lib/props.py reports it
+		// as a broken correspondence; generators that know the operation that blew up emit it first)
+		genPanic := ""
+		func() {
+			defer func() {
+				if e := recover(); e != nil {
+					genPanic = fmt.Sprint(e)
+					fmt.Fprintln(os.Stderr, "generator stopped by a panic:", e)
+				}
+			}()
+			st.Gen(hx.NewRng(sd), n, os.Args[4], w.Emit)
+		}()
 		if err := w.Close(); err != nil {
 			fmt.Fprintln(os.Stderr, err)
 			os.Exit(2)
 		}
 		stats := map[string]any{"stream": st.Name, "cases": w.N, "distinct_nontrivial": w.NonTrivial, "tags": w.Tags}
+		if genPanic != "" {
+			stats["generator_panic"] = genPanic
+		}
 		js, _ := json.Marshal(stats)
 		if err := os.WriteFile(os.Args[5]+".stats.json", js, 0o644); err != nil {
 			fmt.Fprintln(os.Stderr, err)
